@@ -5,32 +5,32 @@ import PigeonVerif.Model.WfgProtocol
 import PigeonVerif.Opt.OptProtocol
 open PV PV.Protocol
 
-partial def loop (spec wfg lrwf : Bool) (h : IO.FS.Stream) (out : IO.FS.Stream) (tab : Array CaseRange) : IO Unit := do
+partial def loop (spec wfg lrwf emit : Bool) (h : IO.FS.Stream) (out : IO.FS.Stream) (tab : Array CaseRange) : IO Unit := do
   let line ← h.getLine
   if line.isEmpty then return ()
   let line := line.trimAsciiEnd.toString
-  if line.isEmpty then loop spec wfg lrwf h out tab
+  if line.isEmpty then loop spec wfg lrwf emit h out tab
   else if line.startsWith "unicode " then
     match parseLine caseRanges line with
-    | .ok t => loop spec wfg lrwf h out t.toArray
-    | .error e => out.putStrLn s!"res 0 error header: {e}"; loop spec wfg lrwf h out tab
+    | .ok t => loop spec wfg lrwf emit h out t.toArray
+    | .error e => out.putStrLn s!"res 0 error header: {e}"; loop spec wfg lrwf emit h out tab
   else if line.startsWith "mid " then
     match parseLine MidProtocol.midCase line with
     | .ok c => out.putStrLn (MidProtocol.runMid c)
     | .error e => out.putStrLn s!"midres 0 error {e}"
-    loop spec wfg lrwf h out tab
+    loop spec wfg lrwf emit h out tab
   else if line.startsWith "optv " then
     match parseLine OptProtocol.optCase line with
     | .ok c => out.putStrLn (OptProtocol.runOptv c)
     | .error e => out.putStrLn s!"optvres 0 error {e}"
-    loop spec wfg lrwf h out tab
+    loop spec wfg lrwf emit h out tab
   else
     match parseLine case_ line with
-    | .ok c => out.putStrLn (if lrwf then WfgProtocol.runLrwf c (toLower tab) else if wfg then WfgProtocol.runWfg c (toLower tab) else if spec then SpecProtocol.runSpec c (toLower tab) else runCase c (toLower tab))
+    | .ok c => out.putStrLn (if emit then WfgProtocol.emitLean c (toLower tab) else if lrwf then WfgProtocol.runLrwf c (toLower tab) else if wfg then WfgProtocol.runWfg c (toLower tab) else if spec then SpecProtocol.runSpec c (toLower tab) else runCase c (toLower tab))
     | .error e => out.putStrLn s!"res 0 error {e}"
-    loop spec wfg lrwf h out tab
+    loop spec wfg lrwf emit h out tab
 
 def main (args : List String) : IO Unit := do
   let stdin ← IO.getStdin
   let stdout ← IO.getStdout
-  loop (args.contains "--spec") (args.contains "--wfg") (args.contains "--lrwf") stdin stdout #[]
+  loop (args.contains "--spec") (args.contains "--wfg") (args.contains "--lrwf") (args.contains "--emit-lean") stdin stdout #[]
